@@ -162,6 +162,15 @@ theorem C01_six_spellings :
     isLpar '(' = true ∧ isRpar ')' = true ∧ isLsqb '[' = true ∧ isRsqb ']' = true ∧
     isWs ' ' = true ∧ isWs '\t' = true ∧ isWs '\n' = true := by decide
 
+/-- **C01 (alphabet).** "Whitespace" and "operator spelling" in the theorems above mean the classes extracted from the running regex engine;
+they are exactly the documented ones: the five characters of Lark's `WS` (tab, line feed, form feed, carriage return, blank),
+`U u ∧`, `O o ∨`, `X x ⊻` and the four bracket characters. -/
+theorem C01_alphabet_as_documented :
+    Generated.cc_ws = [(9, 10), (12, 13), (32, 32)] ∧
+    Generated.cc_opOr = [(79, 79), (111, 111), (8744, 8744)] ∧ Generated.cc_opXor = [(88, 88), (120, 120), (8891, 8891)] ∧
+    Generated.cc_opAnd = [(85, 85), (117, 117), (8743, 8743)] ∧
+    Generated.cc_lpar = [(40, 40)] ∧ Generated.cc_rpar = [(41, 41)] ∧ Generated.cc_lsqb = [(91, 91)] ∧ Generated.cc_rsqb = [(93, 93)] := by decide
+
 /-! non-vacuity of the spelling theorem: `" [ 12 ]u(  [3P 0..1]\t)"` -/
 example : parseCond " [ 12 ]u(  [3P 0..1]\t)".toList =
     some (.bin .and_ (.leaf (.cond "12".toList)) (.leaf (.pkg "3P".toList (some "0..1".toList)))) := by decide
